@@ -215,6 +215,57 @@ def law_records(draw, dim, names=None, fields_ok=True, tilted_ok=False):
     return p
 
 
+def law_record_rng(name: str, dim: int, rng) -> dict:
+    """same parameter grids as `law_records`, drawn from a numpy Generator (enumerated grids)"""
+    def g(lo, hi, q=4):
+        return int(rng.integers(int(lo * q), int(hi * q) + 1)) / float(q)
+
+    def rot(d):
+        return dict(k=int(rng.integers(-11, 13))) if d == 2 else dict(q=[int(x) for x in rng.integers(-4, 5, 4)])
+
+    p = dict(name=name)
+    if name == "NeoHookean":
+        p.update(K=g(0.25, 3))
+    elif name in ("MooneyRivlin", "CiarletGeymonat"):
+        p.update(K1=g(0.25, 2), K2=g(0, 2), K=g(0, 4))
+    elif name == "SaintVenantKirchhoff":
+        p.update(lmbda=g(0, 3), mu=g(0.25, 2), K=g(0, 2))
+    elif name == "HolzapfelOgden":
+        for k in ("C0", "C2", "C4", "C6"):
+            p[k] = g(0.25, 2)
+        for k in ("C1", "C3", "C5", "C7"):
+            p[k] = g(0.25, 1)
+        p.update(K=g(0.25, 4), Mu1=g(0, 2), Mu2=g(0, 2), ks=[1.0, 10.0, 100.0][int(rng.integers(0, 3))])
+        p["frame"] = rot(dim)
+        p["field"] = int(rng.integers(0, 10)) if rng.integers(0, 2) else None
+    elif name == "yeoh":
+        p.update(c1=g(0.25, 2), c2=g(0, 1), c3=g(0, 1), K=g(0.25, 3))
+    elif name == "fung":
+        p.update(c=g(0.25, 2), b1=g(0.25, 1), b2=g(0, 1))
+    elif name == "fibre":
+        p.update(mu=g(0.25, 2), k1=g(0.25, 2), k2=g(0.25, 1))
+        p["frame"] = rot(dim)
+    else:
+        raise KeyError(name)
+    return p
+
+
+def rot_record_rng(dim: int, rng) -> dict:
+    return dict(k=int(rng.integers(-11, 13))) if dim == 2 else dict(q=[int(x) for x in rng.integers(-4, 5, 4)])
+
+
+def mesh_recipe_rng(elemType: str, rng) -> dict:
+    dim = gm.dim_of(elemType)
+    A = None
+    for _ in range(10):
+        M = rng.integers(-6, 7, (dim, dim)) / 4.0
+        if np.linalg.det(M) > 0.3 and np.linalg.cond(M) < 8:
+            A = M.tolist()
+            break
+    return dict(elemType=elemType, cells=1, layers=1, A=A, warp=int(rng.integers(0, 5)) / 50.0,
+                wseed=int(rng.integers(0, 100)))
+
+
 def moduli(p: dict) -> float:
     """natural magnitude of the material constants (scale of energies and stresses)"""
     keys = dict(NeoHookean=["K"], MooneyRivlin=["K1", "K2", "K"], CiarletGeymonat=["K1", "K2", "K"],
